@@ -2,7 +2,7 @@
    run, each discharged by closed computation.  When the source changes shape,
    exactly the lemma naming that shape stops checking. *)
 From FwdLib Require Import Bytes.
-From G12 Require Import Tables Expected Errors Exchange ErrorsProofs.
+From G12 Require Import Tables Expected Errors Exchange ErrorsProofs Indexing.
 
 (* --- shapes the accounting theorems need (C13) --- *)
 (* writeResponse consults skipTraceWroteResponse only for writes whose caller reports the completion later *)
@@ -148,4 +148,29 @@ Proof. vm_compute. reflexivity. Qed.
 Lemma ob_skel_dialerMetrics_dial : skel_dialerMetrics_dial = exp_skel_dialerMetrics_dial.
 Proof. vm_compute. reflexivity. Qed.
 Lemma ob_skel_dialerMetrics_close : skel_dialerMetrics_close = exp_skel_dialerMetrics_close.
+Proof. vm_compute. reflexivity. Qed.
+
+(* --- where the transcribed functions index, slice or assert a type (crash-freedom obligations, Indexing.v) --- *)
+Lemma ob_index_sites : index_sites = exp_index_sites.
+Proof. vm_compute. reflexivity. Qed.
+Lemma ob_type_assert_sites : type_assert_sites = exp_type_assert_sites.
+Proof. vm_compute. reflexivity. Qed.
+Lemma ob_ta_all_others_two_valued : ta_all_others_two_valued = true.
+Proof. vm_compute. reflexivity. Qed.
+Lemma ob_record_prefixes_fit : record_prefixes_fit = true.
+Proof. vm_compute. reflexivity. Qed.
+Lemma ob_byte_reader_buffer : N.leb 1 byte_reader_buffer_size = true.
+Proof. vm_compute. reflexivity. Qed.
+(* --- conntrack byte counters: which counter each wrapper method feeds --- *)
+Lemma ob_read_feeds_rx : read_feeds_rx = true.
+Proof. vm_compute. reflexivity. Qed.
+Lemma ob_write_feeds_tx : write_feeds_tx = true.
+Proof. vm_compute. reflexivity. Qed.
+Lemma ob_readfrom_feeds_tx : readfrom_feeds_tx = true.
+Proof. vm_compute. reflexivity. Qed.
+Lemma ob_skel_conn_Read : skel_conn_Read = exp_skel_conn_Read.
+Proof. vm_compute. reflexivity. Qed.
+Lemma ob_skel_conn_Write : skel_conn_Write = exp_skel_conn_Write.
+Proof. vm_compute. reflexivity. Qed.
+Lemma ob_skel_conn_ReadFrom : skel_conn_ReadFrom = exp_skel_conn_ReadFrom.
 Proof. vm_compute. reflexivity. Qed.
